@@ -92,6 +92,9 @@ SET_ORDER_QUERIES = [
     ("SELECT * FROM (SELECT a, b, c FROM t LEFT UNION ALL BY NAME SELECT c, id FROM u) AS s", "duckdb"),
     ("SELECT * FROM t JOIN u USING (a, b, c, id) JOIN v USING (id, c, a)", ""),
     ("SELECT * FROM t, u, v WHERE t.a = u.a(+) AND u.b(+) = v.b AND t.c = v.c(+)", "oracle"),
+    # the FROM table itself carries the mark: the rewrite has to pick a new FROM table among the remaining ones
+    ("SELECT * FROM t, u, v WHERE t.id (+) = u.id AND v.x = u.x", "oracle"),
+    ("SELECT * FROM t, u, v, w WHERE t.id (+) = v.id AND w.x = u.x", "oracle"),
     ("SELECT t.*, u.*, v.* FROM t NATURAL JOIN u NATURAL JOIN v", ""),
     ("SELECT * EXCLUDE (a, b) REPLACE (c + 1 AS c) FROM t", "duckdb"),
 ]
@@ -255,6 +258,17 @@ def build_tasks():
     for s, d in SET_ORDER_QUERIES:
         tasks.append(("optimize", s, d))
         tasks.append(("qualify", s, d))
+        for w in ("postgres", "duckdb", "spark"):  # generator-side rewrites (BY NAME emulation, star modifiers)
+            tasks.append(("transpile", s, d, w))
+    for d in DIALECTS6:
+        if d:
+            tasks.append(("define-dialect", d))
+    # the public tree transforms that compute collections of tables / columns
+    for s, d in SET_ORDER_QUERIES + [(q, "") for q in OPT_QUERIES]:
+        for name in ("eliminate_join_marks", "eliminate_qualify", "eliminate_distinct_on", "unnest_to_explode", "explode_projection_to_unnest",
+                     "eliminate_semi_and_anti_joins", "eliminate_full_outer_join", "move_ctes_to_top_level", "unqualify_columns", "remove_unique_constraints",
+                     "ctas_with_tmp_tables_to_create_tmp_view", "move_schema_columns_to_partitioned_by", "epoch_cast_to_ts", "any_to_exists"):
+            tasks.append(("transform", s, d, name))
     for i, e in enumerate(bool_expressions()):
         tasks.append(("simplify", e, "plain"))
         if i % 3 == 0:
@@ -265,6 +279,9 @@ def build_tasks():
     return tasks
 
 
+_USER_DIALECTS = []
+
+
 def run_task(task):
     kind = task[0]
     if kind == "parse":
@@ -273,6 +290,22 @@ def run_task(task):
     if kind == "transpile":
         _, s, d, w = task
         return render(lambda: "\n".join(sqlglot.transpile(s, read=d or None, write=w)))
+    if kind == "define-dialect":
+        # a user-defined dialect derived from a built-in one (own generator subclass with a narrower JSON-path repertoire, nothing else):
+        # defining it must not change what the built-in dialect does afterwards (the order clause compares the tasks around it)
+        _, d = task
+        from sqlglot import exp as _exp
+        from sqlglot.dialects.dialect import Dialect as _D
+
+        base = _D.get_or_raise(d).__class__
+        gen = type("Generator", (base.generator_class,), {"SUPPORTED_JSON_PATH_PARTS": {_exp.JSONPathKey, _exp.JSONPathRoot, _exp.JSONPathSubscript}})
+        _USER_DIALECTS.append(type(f"User{base.__name__}{len(_USER_DIALECTS)}", (base,), {"Generator": gen}))
+        return "defined"
+    if kind == "transform":
+        _, s, d, name = task
+        from sqlglot import transforms as _tf
+
+        return render(lambda: getattr(_tf, name)(sqlglot.parse_one(s, read=d or None)).sql(dialect=d or None))
     if kind == "optimize":
         _, s, d = task
         return render(lambda: optimize(s, schema=SCHEMA, dialect=d or None).sql(dialect=d or None))
